@@ -84,7 +84,7 @@ def gen_file(rnd):
         tags = [rnd.choice(['recurring', 'Business', 'INCOME', 'needs review', 'Q1', 'a-b', 'acct #2', 'ps\u2029tag']) for _ in range(rnd.choice([0, 0, 1, 2]))]
         if not cat and rnd.random() < .7 and not tags:
             tags = ['flag']                        # (a row with neither category nor tags is legal CSV and has no effect)
-        rules.append(R.CsvRule(gen_pattern(rnd), gen_mods(rnd), rnd.choice(['Netflix', 'Uber Eats', "Joe's Diner", 'Shop & Co', 'M%d' % i, 'A: B', 'Big [Box]', 'Line\u2028Sep Co', 'Form\x0cFeed', 'Unit #4', 'Nel\x85Name']),
+        rules.append(R.CsvRule(gen_pattern(rnd), gen_mods(rnd), '' if rnd.random() < .05 else rnd.choice(['Netflix', 'Uber Eats', "Joe's Diner", 'Shop & Co', 'M%d' % i, 'A: B', 'Big [Box]', 'Line\u2028Sep Co', 'Form\x0cFeed', 'Unit #4', 'Nel\x85Name']),
                                cat, sub, tags))
     if rnd.random() < .35:
         # two rows whose patterns differ only in the letter case of an escape class (\s / \S, \d / \D, \w / \W, \b / \B)
@@ -130,13 +130,18 @@ def obs_engine(eng, txn):
 
 def classify(crules, txn, a, b, ref, rerun=None):
     """Mechanism key for a CSV-vs-migrated difference (narrow: input features AND failure shape)."""
+    if a['triple'] and b['triple'] and a['triple'][0] == '' and b['triple'][0] != '' and a['triple'][1:] == b['triple'][1:] and a['tags'] == b['tags']:
+        # recorded finding: a CSV row with an EMPTY Merchant cell classifies with the merchant name ''; a .rules section needs a name, so the migrated
+        # rule is named after its pattern - category, subcategory and tags are the same, the merchant name is not
+        return 'empty-merchant-name-has-no-equivalent', True
     d = txn.get('description') or ''
     if len(d.upper()) != len(d) and rerun is not None:
         # recorded finding: the CSV path searches description.upper() ('ß' -> 'SS'), regex() in a .rules file searches the description as written.
         # Confirmed only when the migrated rules, given the upper-cased description, answer exactly as the CSV rules did.
         try:
             b2 = rerun(dict(txn, description=d.upper()))
-            if (b2['triple'], b2['tags']) == (a['triple'], a['tags']):
+            same_but_name = bool(a['triple'] and b2['triple'] and a['triple'][0] == '' and a['triple'][1:] == b2['triple'][1:] and a['tags'] == b2['tags'])
+            if (b2['triple'], b2['tags']) == (a['triple'], a['tags']) or same_but_name:
                 return 'description-with-multi-character-uppercase', True
         except Exception:
             pass
@@ -273,6 +278,14 @@ def relative_probe(rec):
         shutil.rmtree(tmp, ignore_errors=True)
 
 
+def empty_merchant_probe(rec, tmp):
+    """Witness: a row with an empty Merchant cell (fixed: the migrated file loads; open: the merchant name '' has no equivalent)."""
+    cr = [R.CsvRule('RENT', [('month', 6)], '', 'Housing', 'Rent', ['recurring']), R.CsvRule('STARBUCKS', [], 'Coffee', 'Food', 'Coffee', [])]
+    txns = [{'description': 'RENT JUNE', 'amount': 900.0, 'field': None, 'source': 'Amex', 'location': None, 'date': date(2025, 6, 1)},
+            {'description': 'STARBUCKS 42', 'amount': 5.0, 'field': None, 'source': 'Amex', 'location': None, 'date': date(2025, 6, 2)}]
+    judge(rec, cr, txns, tmp, None)
+
+
 def sharp_s_probe(rec, tmp):
     """Witness of the recorded finding 'description-with-multi-character-uppercase'."""
     cr = [R.CsvRule('STRASSE', [], 'Street Shop', 'Shopping', 'Misc', [])]
@@ -292,6 +305,7 @@ def run(rec, shard, nshards, t):
         if shard == 0:
             relative_probe(rec)
             sharp_s_probe(rec, tmp)
+            empty_merchant_probe(rec, tmp)
     finally:
         shutil.rmtree(tmp, ignore_errors=True)
 
@@ -301,6 +315,13 @@ def replay(rec, case):
     rnd = core.rng_for('C14', 'replay')
     if case['kind'] == 'relative':
         relative_probe(rec)
+        return
+    if case['kind'] == 'empty-merchant':
+        tmp = tempfile.mkdtemp(prefix='vt-c14-')
+        try:
+            empty_merchant_probe(rec, tmp)
+        finally:
+            shutil.rmtree(tmp, ignore_errors=True)
         return
     if case['kind'] == 'sharp-s':
         tmp = tempfile.mkdtemp(prefix='vt-c14-')
